@@ -26,7 +26,10 @@ CLAIM = {
                  "scans + abstract interpretation with structurally checked lemmas; small single-caller helpers outside the mechanism's named functions are expanded in place before a "
                  "body is evaluated, and site-level lemmas are filed under the statement's own function; the compositing helper is recognised by what it computes (any two-argument "
                  "function returning bg.blend_over(c) iff alpha(c) < 255), not by its name or place; Option/bool combinator chains (map, filter, unwrap_or, map_or, and_then, then_some, ..) "
-                 "in the k-d search are evaluated by their definition with the closure bodies in place, i.e. as the match they stand for",
+                 "in the k-d search are evaluated by their definition with the closure bodies in place, i.e. as the match they stand for; the palette traversal below build_palette is "
+                 "decided as a whole over the functions that carry (&mut OcTreeNode | &mut OcTree, &mut Vec<RGBA>) found by data flow from build_palette (node handlers / tree visitors, in place "
+                 "or as calls), not on a named helper; the error rows are found by use and sized either by one resize on an empty vector or by `vec![x; n]` as the only non-empty definition; "
+                 "alpha guards in any spelling (< 255, != 255, == 255 on the u8 channel, array patterns); moves of the filled octree through locals / expanded helper results are followed",
     "design_ref": "DESIGN.md §5 C13",
 }
 
@@ -79,7 +82,7 @@ def blend_fn_check(prog, path):
         except TooManyPaths:
             ps = None
         if ps and all(p.end[0] == "return" and p.ret is not None for p in ps):
-            probs = [blend_problem(p, p.ret, ("arg", 2), ("arg", 1)) for p in ps]
+            probs = [blend_problem(p, p.ret, ("arg", 2), ("arg", 1), body=b) for p in ps]
             kinds = {("blend" if is_call(p.ret, r"::blend_over$") else "plain") for p in ps}
             cache[path] = (not any(probs) and kinds == {"blend", "plain"}, [x for x in probs if x] or sorted(kinds), [show(p.ret)[:80] for p in ps])
     return cache[path]
@@ -352,7 +355,7 @@ def alpha_of(s):
     return m
 
 
-def blend_problem(p, value, src, bg, prog=None):
+def blend_problem(p, value, src, bg, prog=None, body=None):
     """None when on path p `value` is the composited source colour: blend_over(bg, src) exactly when alpha(src) < 255, src otherwise
     (written out on the path, or as a call helper(bg, src) of a function that blend_fn_check found to be exactly that)"""
     if prog is not None and isinstance(value, tuple) and value[0] == "call" and len(value[2]) == 2 and is_blend_fn(prog, value[1]):
@@ -360,8 +363,22 @@ def blend_problem(p, value, src, bg, prog=None):
             return None
         return "the compositing helper is called with (%s, %s) instead of (bg, pixel)" % (show(value[2][0])[:60], show(value[2][1])[:60])
     al = alpha_of(src)
-    lows = [f for f in p.facts if f[0] == "lt" and al(f[1]) and f[2] == ("c", "255")]
-    highs = [f for f in p.facts if f[0] == "lt" and f[1] == ("c", "254") and al(f[2])]
+    # alpha < 255 in any spelling; the alpha channel is a u8 (Color::to_rgba returns [u8; 4]: checked on the call's destination type), so
+    # `!= 255` is `< 255` and `== 255` is `>= 255` (`match c.to_rgba() { [_, _, _, 255] => c, _ => blend }`, `if a == u8::MAX`)
+    u8_alpha = any(c.matches(r"::to_rgba$") and not c.t["dest"]["p"] and (c.body or body) is not None and (c.body or body).local_ty(c.t["dest"]["l"]) == "[u8; 4]" for c in p.calls) \
+        and all((c.body or body) is not None and (c.body or body).local_ty(c.t["dest"]["l"]) == "[u8; 4]" for c in p.calls if c.matches(r"::to_rgba$") and not c.t["dest"]["p"])
+
+    def low(f):
+        f = strip(f)
+        return (f[0] == "lt" and al(f[1]) and f[2] == ("c", "255")) or (f[0] == "le" and al(f[1]) and f[2] == ("c", "254")) \
+            or (u8_alpha and f[0] == "ne" and ((al(f[1]) and f[2] == ("c", "255")) or (al(f[2]) and f[1] == ("c", "255"))))
+
+    def high(f):
+        f = strip(f)
+        return (f[0] == "lt" and f[1] == ("c", "254") and al(f[2])) or (f[0] == "le" and f[1] == ("c", "255") and al(f[2])) \
+            or (u8_alpha and f[0] == "eq" and ((al(f[1]) and f[2] == ("c", "255")) or (al(f[2]) and f[1] == ("c", "255"))))
+    lows = [f for f in p.facts if low(f)]
+    highs = [f for f in p.facts if high(f)]
     if is_call(value, r"::blend_over$") and len(value[2]) == 2 and strip(value[2][0]) == strip(bg) and strip(value[2][1]) == strip(src):
         if lows and not highs:
             return None
@@ -391,7 +408,7 @@ def run(ctx):
     ctx.assume("PIXEL-COUNT: the image has fewer than 2^48 pixels, so sums of 8-bit channel values and of leaf/colour counts over all pixels fit in usize")
 
     bodies = {}
-    for p in (QUANT, PAL_NEW, PAL_FROM, PAL_FIND, KD_NEW, KD_BUILD, KD_FIND, KD_REC, KD_DIST, OC_PRUNE_UNTIL, OC_BUILD, OC_BUILD_REC):
+    for p in (QUANT, PAL_NEW, PAL_FROM, PAL_FIND, KD_NEW, KD_BUILD, KD_FIND, KD_REC, KD_DIST, OC_PRUNE_UNTIL, OC_BUILD):
         b = expand(prog, p)
         if b is None and p != KD_DIST:      # the metric may be written out in find_rec itself
             ctx.rule("ANCHORS", "functions named by the property's mechanism exist", floor=0)
@@ -847,7 +864,7 @@ def blend_agree(ctx, bodies, q):
             probs.append("pixel source or looked-up colour not understood")
             continue
         src = ([s_ for s_ in srcs if contains(v[1], s_)] or srcs)[0]
-        pr = blend_problem(p, v[1], src, qbg, prog)
+        pr = blend_problem(p, v[1], src, qbg, prog, body=b)
         if pr:
             probs.append(pr)
     ok = bool(q["paths"]) and not probs
@@ -877,6 +894,52 @@ def mapped_colour(p, q):
     return False, c, None
 
 
+FROM_ELEM = r"^(std|alloc)::vec::from_elem$"        # vec![x; n]
+VEC_EMPTY = r"Vec::<T>::new$|Vec::<T>::with_capacity$"
+
+
+def error_rows(b, ev):
+    """the error-row vector of quantize, found by use: the Vec local(s) that quantize indexes / resizes / takes apart.
+    -> (term of the vector or None when there is not exactly one, sizing definitions [(block, length term)] = `vec![x; n]` among its definitions,
+    all other definitions are empty vectors (Vec::new / with_capacity)? -- then the list of their blocks, else False)"""
+    terms, locs = {}, []
+    for l in range(len(b.locals)):
+        if not b.local_ty(l).startswith("std::vec::Vec<") or l <= b.arg_count:
+            continue
+        t = ev.local(l, None)
+        used = any(call_matches(c, r"Index<I>>::index$|IndexMut<I>>::index_mut$|Deref>::deref$|DerefMut>::deref_mut$|Vec::<T, A>::resize(_with)?$|slice::<impl \[T\]>::") and
+                   any(ev.operand(a, None) == t for a in c["args"]) for bb, c in b.calls())
+        if used:
+            terms.setdefault(t, []).append(l)
+    if len(terms) != 1:
+        return None, [], False
+    E, ls = next(iter(terms.items()))
+    sizing, ok, seen, empties = [], [True], set(), []
+
+    def scan(l):
+        if l in seen:
+            return
+        seen.add(l)
+        ds = b.defs_of(l)
+        if not ds:
+            ok[0] = False
+        for bb, si, rv in ds:
+            if si == "term":
+                if call_matches(rv, FROM_ELEM) and len(rv["args"]) == 2:
+                    sizing.append((bb, ev.operand(rv["args"][1], None)))
+                elif call_matches(rv, VEC_EMPTY):
+                    empties.append(bb)
+                else:
+                    ok[0] = False
+            elif rv["k"] == "use" and rv["a"]["k"] == "move" and not rv["a"]["place"]["p"]:
+                scan(rv["a"]["place"]["l"])
+            else:
+                ok[0] = False
+    for l in ls:
+        scan(l)
+    return E, sizing, (empties if ok[0] else False)
+
+
 # =================================================================================================================
 # DITHER-GUARD
 # =================================================================================================================
@@ -889,8 +952,8 @@ def dither_guard(ctx, bodies, q):
     dither = ("arg", 3)
     # edges taken only when dither is true
     true_edges, _false_edges = flag_edges(b, ev, dither)
-    vecs = [l for l in range(len(b.locals)) if b.local_ty(l).startswith("std::vec::Vec<")]
-    vterms = {ev.local(l, None) for l in vecs if len(b.defs_of(l)) == 1}
+    E_, _sz, _ok = error_rows(b, ev)
+    vterms = {E_} if E_ is not None else set()
     n = 0
     for bb, t in b.calls():
         hit = [a for a in t["args"] if ev.operand(a, None) in vterms]
@@ -1336,17 +1399,30 @@ def palette_bound(ctx, bodies):
             tl = int(tree_p[1:])
             ok_fill = True
             srcs = []
-            for bb, si, rv in fi.defs_of(tl):
-                if si == "term":
-                    srcs.append((rv["fn"].get("resolved") or rv["fn"].get("path") or "?").split("::")[-1])
-                    ok_fill = ok_fill and call_matches(rv, r"Iterator::collect$|FromIterator.*from_iter$")
-                elif rv["k"] == "use" and rv["a"]["k"] in ("move", "copy") and not rv["a"]["place"]["p"]:
-                    l2 = rv["a"]["place"]["l"]
-                    ins = [t for bb2, t in fi.calls() if call_matches(t, r"^image::OcTree::insert$") and arg_place(fi, t, 0) == "_%d" % l2]
-                    srcs.append("moved local with %d insert site(s)" % len(ins))
-                    ok_fill = ok_fill and bool(ins)
-                else:
-                    ok_fill = False
+
+            def fill_defs(l, seen):
+                """every definition of tree local l is collect(..) or a move (through any chain of plain locals: `let t = octree;`, the result slot of an
+                expanded helper) of a local that received the inserts"""
+                ok_ = True
+                if l in seen:
+                    return False
+                seen = seen | {l}
+                ds = fi.defs_of(l)
+                for bb, si, rv in ds:
+                    if si == "term":
+                        srcs.append((rv["fn"].get("resolved") or rv["fn"].get("path") or "?").split("::")[-1])
+                        ok_ = ok_ and call_matches(rv, r"Iterator::collect$|FromIterator.*from_iter$")
+                    elif rv["k"] == "use" and rv["a"]["k"] in ("move", "copy") and not rv["a"]["place"]["p"]:
+                        l2 = rv["a"]["place"]["l"]
+                        ins = [t for bb2, t in fi.calls() if call_matches(t, r"^image::OcTree::insert$") and arg_place(fi, t, 0) == "_%d" % l2]
+                        if ins:
+                            srcs.append("moved local with %d insert site(s)" % len(ins))
+                        else:
+                            ok_ = ok_ and fill_defs(l2, seen)
+                    else:
+                        ok_ = False
+                return ok_ and bool(ds)
+            ok_fill = fill_defs(tl, frozenset())
             allins = [t for bb2, t in fi.calls() if call_matches(t, r"^image::OcTree::insert$")]
             ok_fill = ok_fill and bool(srcs) and sum(int(s.split()[3]) for s in srcs if s.startswith("moved")) == len(allins)
             ctx.instance(R, {"pruned_tree_defined_by": srcs, "is_the_filled_tree": ok_fill})
@@ -1421,102 +1497,220 @@ def palette_bound(ctx, bodies):
         ctx.violation(R, OC_PRUNE_UNTIL, "loop-cond", "prune_until does not loop `while self.info.leaf_count > bound { self.prune() }` with bound = color_count or max(color_count, const): %s" % detail, sites=[pb.loc])
 
     # ---- build_palette -------------------------------------------------------------------------------------------------
-    pr = bodies[OC_BUILD_REC]
-    evr = evaluator(pr)
-    try:
-        ps = [p for p in evr.paths(0, []) if p.end[0] not in ("infeasible", "unreachable")]
-    except TooManyPaths:
-        ps = None
+    build_palette_traversal(ctx, bodies)
+
+
+def traversal_fns(prog):
+    """the functions that carry the palette vector through the octree below build_palette: every crate function reached from it (through its
+    closures too) with the two parameters (&mut OcTreeNode | &mut OcTree, &mut Vec<RGBA>) -- {path: "node" | "tree"}; found by data flow from the
+    entry point, whatever they are called and however the traversal is split between them"""
+    out, seen, work = {}, set(), [OC_BUILD]
+    while work:
+        p = work.pop()
+        if p in seen:
+            continue
+        seen.add(p)
+        b = prog.body(p)
+        if b is None:
+            continue
+        for bb, t in b.calls():
+            f = t["fn"]
+            cp = f.get("resolved") if f.get("resolved_local") else (f.get("path") if f.get("local") else None)
+            cb = prog.body(cp) if cp else None
+            if cb is None or cb.closure_root or cb.arg_count != 2 or not re.match(r"^&('\w+ )?mut std::vec::Vec<rasterize::RGBA>$", cb.local_ty(2)):
+                continue
+            m = re.match(r"^&('\w+ )?mut image::(OcTreeNode|OcTree)$", cb.local_ty(1))
+            if m:
+                out[cb.path] = "node" if m.group(2) == "OcTreeNode" else "tree"
+                work.append(cb.path)
+        for c in prog.bodies:
+            if c.closure_root == (b.closure_root or b.path) and c.path not in seen:
+                work.append(c.path)
+    return out
+
+
+def build_palette_traversal(ctx, bodies):
+    """build_palette hands out one colour per leaf, leaf.index = its position, and reaches every child: decided on the traversal as a whole.
+    A *node handler* for node n does: Leaf -> `leaf.index = palette.len(); palette.push(leaf.to_rgba())`, Empty -> nothing, Tree(t) -> visit t;
+    a *tree visitor* for t hands every element of t.children (iter_mut loop without early exit, or for_each) to a node handler -- written in place or
+    as a call of a traversal function (found by data flow: traversal_fns) with the same palette vector."""
+    R = "PALETTE-BOUND"
+    prog = ctx.prog
+    TF = traversal_fns(prog)
     vs = dict((n, str(d if d is not None else i)) for i, (n, d) in enumerate(prog.enum_variants("image::OcTreeNode") or []))
-    if not ps or set(vs) != {"Leaf", "Tree", "Empty"}:
-        ctx.anchor(R, "palette_rec/paths")
+    if set(vs) != {"Leaf", "Tree", "Empty"} or not TF:
+        ctx.anchor(R, "build_palette/traversal", "no function below build_palette takes (&mut OcTreeNode | &mut OcTree, &mut Vec<RGBA>), or OcTreeNode is not Empty | Leaf | Tree")
+        return
+    st = {"leaf": 0, "leaf_why": None, "leaf_ok": True, "other_ok": True}
+    TFRX = r"^(%s)$" % "|".join(re.escape(x) for x in TF)
+
+    def events(p):
+        pushes = [c for c in p.calls if c.matches(r"Vec::<T, A>::push$")]
+        stores = [s for s in p.stores if s[0][0] == "f" and s[0][2] == "index"]
+        trav = [c for c in p.calls if c.matches(TFRX)]
+        return pushes, stores, trav
+
+    def known(p, n, v):
+        return variant_known(p.facts, n, vs[v], tuple(vs.values())) or variant_known([strip(f) for f in p.facts], strip(n), vs[v], tuple(vs.values()))
+
+    def unit_check(body, start, kind, subj, pal, top=False):
+        """the region of `body` from block `start` (up to the heads of its loops) handles node `subj` / visits tree `subj` with palette `pal`, and so do its loops"""
+        ev = evaluator(body)
+        lps = {lp["head"]: lp for lp in for_loops(body, ev)}
+        natural = body.cfg().loops()
+        if set(natural) - set(lps):
+            return False, "a loop that is not an iteration over children"
+        used = set()
+
+        def region(start_, kind_, subj_, stops, own=None):
+            """own: head of the loop whose body this region is (reaching it again is the normal end of an iteration)"""
+            try:
+                ps = [p for p in evaluator(body).paths(start_, stops) if p.end[0] not in ("infeasible", "unreachable") and not panics(body, p)]
+            except TooManyPaths:
+                return False, "too many paths"
+            if not ps:
+                return False, "no path"
+            for p in ps:
+                pushes, stores, trav = events(p)
+                if p.end[0] not in ("return", "stop"):
+                    return False, "a path ends in %s" % (p.end,)
+                normal_end = p.end[0] == "return" or p.end == ("stop", own)
+                for c in p.calls:
+                    if c in pushes or c in trav or c.matches(r"Vec::<T, A>::(reserve|reserve_exact)$"):
+                        continue
+                    if mut_arg(c, lambda a: unupd(a)[0] == unupd(pal)[0]) and not c.matches(r"Iterator::for_each$"):
+                        return False, "%s modifies the palette vector" % c.name
+                if kind_ == "after":        # after a children loop: nothing more happens
+                    if pushes or stores or trav or not normal_end:
+                        st["other_ok"] = st["other_ok"] and not (pushes or stores)
+                        return False, "colours are pushed / nodes visited after the loop over the children"
+                    continue
+                t = subj_
+                if kind_ == "node":
+                    if known(p, subj_, "Leaf"):
+                        leaf = field(("dc", subj_, "Leaf"), "0")
+                        st["leaf"] += 1
+                        good = len(pushes) == 1 and len(stores) == 1 and not trav and normal_end and unupd(pushes[0].args[0])[0] == unupd(pal)[0] and stores[0][0] == field(leaf, "index") \
+                            and is_call(pushes[0].args[1], r"^image::OcTreeLeaf::to_rgba$") and pushes[0].args[1][2] == (leaf,)
+                        if good:
+                            v = strip(stores[0][1])
+                            lens = [c for c in p.calls if c.matches(r"Vec::<T, A>::len$") and unupd(c.args[0])[0] == unupd(pal)[0]]
+                            before = len(lens) == 1 and lens[0].pos < pushes[0].pos
+                            good = len(lens) == 1 and ((v == strip(lens[0].term) and before) or (v == ("bin", "Sub", strip(lens[0].term), ("c", "1")) and lens[0].pos > pushes[0].pos))
+                            st["leaf_why"] = "leaf.index = %s, len() taken %s the push" % (show(v), "before" if before else "after")
+                        else:
+                            st["leaf_why"] = "leaf arm: %d push(es), %d store(s) to an index field, %d traversal call(s)" % (len(pushes), len(stores), len(trav))
+                        st["leaf_ok"] = st["leaf_ok"] and good
+                        if not good:
+                            return False, st["leaf_why"]
+                        continue
+                    if pushes or stores:
+                        st["other_ok"] = False
+                        return False, "a colour is pushed or an index set outside the Leaf arm"
+                    if known(p, subj_, "Empty"):
+                        if trav or not normal_end:
+                            return False, "an Empty node is traversed"
+                        continue
+                    if len(trav) == 1 and TF[trav[0].name] == "node" and normal_end:
+                        c = trav[0]
+                        if strip(c.args[0]) == strip(subj_) and unupd(c.args[1])[0] == unupd(pal)[0]:
+                            continue
+                        return False, "%s is called with (%s, %s), not (this node, the palette)" % (c.name, show(c.args[0])[:60], show(c.args[1])[:60])
+                    if not known(p, subj_, "Tree"):
+                        return False, "a node of unknown kind is not handed to a node handler"
+                    t = field(("dc", subj_, "Tree"), "0")
+                elif pushes or stores:
+                    st["other_ok"] = False
+                    return False, "a colour is pushed or an index set outside the Leaf arm"
+                # visit tree t: a loop over t.children of this body, one call of a tree visitor, or for_each over t.children
+                base = field(t, "children")
+                fes = [c for c in p.calls if c.matches(r"Iterator::for_each$")]
+                if not normal_end:
+                    lp = lps.get(p.end[1])
+                    if lp is None or trav or fes:
+                        return False, "unexpected loop"
+                    if not children_iter(lp["iter"], base):
+                        return False, "the loop runs over %s, not over every element of %s" % (show(lp["iter"])[:100] if lp["iter"] else None, show(base)[:60])
+                    used.add(lp["head"])
+                    continue
+                if len(trav) == 1 and not fes and TF[trav[0].name] == "tree":
+                    c = trav[0]
+                    if strip(c.args[0]) == strip(t) and unupd(c.args[1])[0] == unupd(pal)[0]:
+                        continue
+                    return False, "%s is called with (%s, %s), not (this tree, the palette)" % (c.name, show(c.args[0])[:60], show(c.args[1])[:60])
+                if len(fes) == 1 and not trav:
+                    c = fes[0]
+                    cb = closure_body(prog, c.args[1])
+                    up = closure_upvars(c.args[1])
+                    if not children_iter(c.args[0], base) or cb is None:
+                        return False, "for_each runs over %s, not over every element of %s" % (show(c.args[0])[:100], show(base)[:60])
+                    pi = [i for i, u in enumerate(up) if unupd(u)[0] == unupd(pal)[0]]
+                    if len(pi) != 1:
+                        return False, "the for_each closure does not capture the palette"
+                    ok_, why_ = unit_check(cb, 0, "node", ("arg", 2), field(("arg", 1), str(pi[0])))
+                    if not ok_:
+                        return False, why_
+                    continue
+                return False, "a tree is not visited (no loop over its children, no visitor call)"
+            return True, None
+
+        heads = sorted(lps)
+        ok_, why_ = region(start, kind, subj, heads)
+        if not ok_:
+            return False, why_
+        for h in heads:
+            lp = lps[h]
+            if h not in used:
+                return False, "a loop over something else than the children of the visited tree"
+            users = [1 for bb2, t2 in body.calls() if any(ev.operand(a, None) == lp["iter"] for a in t2["args"])]
+            if len(users) != 1 or loop_early_exits(body, lp):
+                return False, "the loop over the children is left early or its iterator is advanced elsewhere"
+            ok_, why_ = region(lp["some"], "node", lp["item"], heads, own=h)
+            if not ok_:
+                return False, why_
+            ok_, why_ = region(lp["none"], "after", None, heads)
+            if not ok_:
+                return False, why_
+        return True, None
+
+    def children_iter(it, base):
+        t = strip(it) if it is not None else None
+        wrapped = False
+        while is_call(t, r"::into_iter$") and len(t[2]) == 1:      # `for c in x.iter_mut()` / `for c in &mut x`
+            t = t[2][0]
+            wrapped = True
+        return t is not None and ((is_call(t, r"slice::<impl \[T\]>::iter_mut$") and t[2] == (strip(base),)) or (wrapped and t == strip(base)))
+
+    results = []
+    for path in sorted(TF):
+        body = expand(prog, path)
+        results.append((path, body) + unit_check(body, 0, TF[path], ("arg", 1), ("arg", 2)))
+    # the entry: a fresh vector, handed through the whole of self, returned
+    bp = bodies[OC_BUILD]
+    evb = evaluator(bp)
+    try:
+        rps = [p for p in evb.paths(0, []) if p.end[0] == "return"]
+    except TooManyPaths:
+        rps = []
+    pals = {unupd(p.ret)[0] for p in rps if p.ret is not None}
+    palv = next(iter(pals)) if len(pals) == 1 else None
+    if palv is None or not is_call(palv, r"Vec::<T>::new$|Vec::<T>::with_capacity$"):
+        results.append((OC_BUILD, bp, False, "build_palette does not return the one fresh vector it fills"))
     else:
-        node, pal = ("arg", 1), ("arg", 2)
-        leaf = field(("dc", node, "Leaf"), "0")
-        ok_leaf = ok_other = True
-        n_leaf = 0
-        why = None
-        for p in ps:
-            pushes = [c for c in p.calls if c.matches(r"Vec::<T, A>::push$")]
-            if variant_known(p.facts, node, vs["Leaf"], tuple(vs.values())):
-                n_leaf += 1
-                st = [s for s in p.stores if s[0] == field(leaf, "index")]
-                good = len(pushes) == 1 and len(st) == 1 and pushes[0].args[0] == pal and is_call(pushes[0].args[1], r"^image::OcTreeLeaf::to_rgba$") and pushes[0].args[1][2] == (leaf,)
-                if good:
-                    v = strip(st[0][1])
-                    ln = ("call", "std::vec::Vec::<T, A>::len", (pal,), None)
-                    lens = [c for c in p.calls if c.matches(r"Vec::<T, A>::len$") and c.args[0] == pal]
-                    before = len(lens) == 1 and lens[0].pos < pushes[0].pos
-                    good = (v == ln and before) or (v == ("bin", "Sub", ln, ("c", "1")) and len(lens) == 1 and lens[0].pos > pushes[0].pos)
-                    why = "leaf.index = %s, len() taken %s the push" % (show(v), "before" if before else "after")
-                else:
-                    why = "leaf arm: %d push(es), %d store(s) to leaf.index" % (len(pushes), len(st))
-                ok_leaf = ok_leaf and good and p.end[0] == "return"
-            else:
-                if pushes or any(s[0][0] == "f" and s[0][2] == "index" for s in p.stores):
-                    ok_other = False
-        ctx.instance(R, {"palette_rec_leaf_arm": why, "index_is_position_of_pushed_colour": ok_leaf and n_leaf >= 1})
-        if not (ok_leaf and n_leaf >= 1):
-            ctx.violation(R, OC_BUILD_REC, "leaf-index", "a leaf's index is not the position of the colour pushed for it (%s)" % why, sites=[pr.loc])
-        ctx.instance(R, {"palette_rec_other_arms": "no push / index store", "holds": ok_other})
-        if not ok_other:
-            ctx.violation(R, OC_BUILD_REC, "one-colour-per-leaf", "palette_rec pushes a colour or sets an index outside the Leaf arm", sites=[pr.loc])
-    # recursion over all children (palette_rec Tree arm, build_palette top level)
-    for body, base, nm in ((pr, field(field(("dc", ("arg", 1), "Tree"), "0"), "children"), "palette_rec"), (bodies[OC_BUILD], field(("arg", 1), "children"), "build_palette")):
-        ev2 = evaluator(body)
-        lps = for_loops(body, ev2)
-        recs = [(bb, t) for bb, t in body.calls() if call_matches(t, r"^image::OcTree::build_palette::palette_rec$")]
-        ok = len(lps) == 1 and len(recs) == 1
-        it = None
-        fes = [(bb, t) for bb, t in body.calls() if call_matches(t, r"Iterator::for_each$")]
-        if not lps and not recs and len(fes) == 1:
-            # `children.iter_mut().for_each(|child| palette_rec(child, palette))`: the closure runs once for every element
-            it = ev2.operand(fes[0][1]["args"][0], None)
-            clo = ev2.operand(fes[0][1]["args"][1], None)
-            t = strip(it)
-            wrapped = False
-            while is_call(t, r"::into_iter$") and len(t[2]) == 1:
-                t = t[2][0]
-                wrapped = True
-            ok = (is_call(t, r"slice::<impl \[T\]>::iter_mut$") and t[2] == (base,)) or (wrapped and t == base)
-            cb = closure_body(prog, clo)
-            up = closure_upvars(clo)
-            palv = None
-            evc, cps = paths_of(ctx, R, cb) if cb is not None else (None, None)
-            ok = ok and bool(cps)
-            for cp in cps or []:
-                cs = [c for c in cp.calls if c.matches(r"^image::OcTree::build_palette::palette_rec$")]
-                good = len(cs) == 1 and len(cp.calls) == 1 and cp.end[0] == "return" and cs[0].args[0] == ("arg", 2)
-                if good:
-                    a1 = cs[0].args[1]
-                    good = a1[0] == "f" and a1[1] == ("arg", 1) and a1[2].isdigit() and int(a1[2]) < len(up)
-                    palv = up[int(a1[2])] if good else None
-                ok = ok and good
-            if ok and nm == "palette_rec":
-                ok = palv == ("arg", 2)
-            elif ok:
-                rets = [ev2.rvalue(s_["rv"], None) for bb, si, s_ in body.assigns() if s_["place"]["l"] == 0 and not s_["place"]["p"]]
-                ok = is_call(palv, r"Vec::<T>::new$|Vec::<T>::with_capacity$") and rets == [palv]
-        elif ok:
-            lp = lps[0]
-            it = lp["iter"]
-            t = strip(it)
-            wrapped = False
-            while is_call(t, r"::into_iter$") and len(t[2]) == 1:      # `for c in x.iter_mut()` / `for c in &mut x`
-                t = t[2][0]
-                wrapped = True
-            ok = (is_call(t, r"slice::<impl \[T\]>::iter_mut$") and t[2] == (base,)) or (wrapped and t == base)
-            a = [ev2.operand(x, None) for x in recs[0][1]["args"]]
-            palv = ("arg", 2) if nm == "palette_rec" else a[1]
-            ok = ok and a[0] == lp["item"] and recs[0][0] in lp["body"] and body.cfg().must_pass([recs[0][0]], exits=[lp["head"]], start=lp["some"])[0] and not loop_early_exits(body, lp)
-            if nm == "palette_rec":
-                ok = ok and a[1] == ("arg", 2)
-            else:
-                rets = [ev2.rvalue(s["rv"], None) for bb, si, s in body.assigns() if s["place"]["l"] == 0 and not s["place"]["p"]]
-                ok = ok and is_call(palv, r"Vec::<T>::new$|Vec::<T>::with_capacity$") and rets == [palv]
-        ctx.instance(R, {nm: "for child in %s { palette_rec(child, palette) }" % (show(it)[:100] if it else None), "visits_every_child_with_the_same_palette": bool(ok)})
+        results.append((OC_BUILD, bp) + unit_check(bp, 0, "tree", ("arg", 1), palv, top=True))
+    ok_leaf = st["leaf_ok"] and st["leaf"] >= 1
+    ctx.instance(R, {"leaf_arm": st["leaf_why"], "index_is_position_of_pushed_colour": ok_leaf})
+    ctx.instance(R, {"other_arms": "no push / index store", "holds": st["other_ok"]})
+    reported = False
+    for path, body, ok, why in results:
+        ctx.instance(R, {path.split("::")[-1]: TF.get(path, "entry"), "visits_every_child_with_the_same_palette": bool(ok), "why_not": why})
         if not ok:
-            ctx.violation(R, body.path, "all-children", "%s does not hand every element of `children` (iter_mut) to palette_rec with the one palette vector (that is returned)" % nm, sites=[body.loc])
+            reported = True
+            shape = "leaf-index" if not st["leaf_ok"] else ("one-colour-per-leaf" if not st["other_ok"] else "all-children")
+            ctx.violation(R, path, shape, "the traversal below build_palette does not give every leaf exactly one colour with leaf.index = its position, reaching every child with the one "
+                                          "palette vector (that is returned): %s" % why, sites=[body.loc])
+    if not ok_leaf and not reported:
+        ctx.violation(R, OC_BUILD, "leaf-index", "a leaf's index is not the position of the colour pushed for it (%s)" % st["leaf_why"], sites=[bp.loc])
 
 
 # =================================================================================================================
@@ -1670,11 +1864,10 @@ def total(ctx, bodies, q, kd):
     ctx.rule(R, "under dither the error vector is resized once to 2*ewidth (ewidth = width + 2) before the loops and every index col [+ ewidth] [+ k] stays below 2*ewidth", floor=3)
     b = bodies[QUANT]
     ev = evaluator(b)
-    vecs = [l for l in range(len(b.locals)) if b.local_ty(l).startswith("std::vec::Vec<") and len(b.defs_of(l)) == 1]
-    if len(vecs) != 1 or not q.get("ok"):
+    E, sized_defs, defs_ok = error_rows(b, ev)
+    if E is None or not q.get("ok"):
         ctx.anchor(R, "quantize/error-rows")
     else:
-        E = ev.local(vecs[0], None)
         width = ("call", "surface::Surface::width", (("arg", 1),), "@g")
         touching = [(bb, t) for bb, t in b.calls() if any(ev.operand(a, None) == E for a in t["args"])]
         rs = [(bb, t) for bb, t in touching if call_matches(t, r"Vec::<T, A>::resize_with$|Vec::<T, A>::resize$")]
@@ -1696,8 +1889,11 @@ def total(ctx, bodies, q, kd):
         other = [(bb, t) for bb, t in touching if (bb, t) not in rs and (bb, t) not in idxs and (bb, t) not in splits and not length_preserving(t)]
         ew = None
         ok_rs = False
-        if len(rs) == 1 and not other and is_call(E, r"Vec::<T>::new$|Vec::<T>::with_capacity$"):
-            n = ev.operand(rs[0][1]["args"][1], None)
+        # the one place where the rows get their length: `errors.resize[_with](n, ..)` on the empty vector, or the vector is created as `vec![x; n]`
+        # (every other definition being an empty vector: `if dither { vec![..; n] } else { Vec::new() }`)
+        sizing = [(bb, ev.operand(t["args"][1], None)) for bb, t in rs] + sized_defs
+        if len(sizing) == 1 and not other and defs_ok is not False:
+            size_bb, n = sizing[0]
             ns = strip(n)
             if ns[0] == "bin" and ns[1] == "Mul" and ("c", "2") in (ns[2], ns[3]):
                 ew = n[2] if ns[3] == ("c", "2") else n[3]
@@ -1708,11 +1904,15 @@ def total(ctx, bodies, q, kd):
             cfg = b.cfg()
             # with the dither == false edges removed (the flag never changes), every access is reachable only through the resize
             off = set(flag_edges(b, ev, ("arg", 3))[1])
-            ok_dom = bool(off) and all(_only_through(cfg, rs[0][0], bb, off) for bb, t in idxs + splits + sl_idx + moves) and not any(rs[0][0] in lp["body"] for lp in q["loops"])
+            ok_dom = bool(off) and all(_only_through(cfg, size_bb, bb, off) for bb, t in idxs + splits + sl_idx + moves) and not any(size_bb in lp["body"] for lp in q["loops"])
+            # no (re)definition of the vector as an empty one after it was sized: none inside a loop, none reachable from the sizing site while dither is true
+            after = _reach(cfg, size_bb, off)
+            in_loop = {x for bd in cfg.loops().values() for x in bd}
+            ok_dom = ok_dom and not any(x in in_loop or (x in after and x != size_bb) for x in defs_ok) and size_bb not in in_loop
             ok_rs = ok_ew and ok_dom
             ctx.instance(R, {"resize": show(n)[:100], "ewidth": show(ew)[:80] if ew else None, "is_2*(width+2)": bool(ok_ew), "every_access_preceded_by_resize": ok_dom})
         else:
-            ctx.instance(R, {"resize_calls": len(rs), "other_calls_on_error_rows": [(t["fn"].get("resolved") or "?") for bb, t in other], "ok": False})
+            ctx.instance(R, {"sizing_sites": len(rs) + len(sized_defs), "definitions_understood": defs_ok is not False, "other_calls_on_error_rows": [(t["fn"].get("resolved") or "?") for bb, t in other], "ok": False})
         if not ok_rs:
             ctx.violation(R, QUANT, "resize", "the error rows are not (only) resized to 2 * (self.width() + 2) before use", sites=[b.loc])
         loops_by_item = [(lp["item"], range_of(lp["iter"])[1]) for lp in q["loops"] if lp["iter"] and range_of(lp["iter"]) and strip(range_of(lp["iter"])[0]) == ("c", "0")]
@@ -2000,6 +2200,20 @@ def total(ctx, bodies, q, kd):
                  desc="no reachable panic/overflow/bounds/unwrap failure from Image::quantize and ColorPalette::{new,from_image,find} within src/image.rs")
 
 
+def _reach(cfg, a, removed_edges):
+    """blocks reachable from block a (a itself only through a cycle... kept simple: a is included) once `removed_edges` are deleted"""
+    seen, st = set(), [a]
+    while st:
+        y = st.pop()
+        if y in seen:
+            continue
+        seen.add(y)
+        for s_ in cfg.succ[y]:
+            if (y, s_) not in removed_edges:
+                st.append(s_)
+    return seen
+
+
 def _only_through(cfg, a, x, removed_edges):
     """block x is reachable from the entry only through block a once `removed_edges` are deleted"""
     seen, st = set(), [0]
@@ -2039,13 +2253,37 @@ def octree_inv(ctx, bodies, lemmas, trusts):
         P[p] = ps
     # (1) OcTreePath::next yields 3-bit values and None only when length == 0; new() starts with a constant length >= 1
     ok_next = True
+    length = field(("arg", 1), "length")
+
+    def length_is_zero(facts):
+        """the path's facts say self.length == 0: written as a comparison (== 0, < 1, <= 0) or as the failure of the unsigned `length.checked_sub(1)`
+        (`self.length = self.length.checked_sub(1)?`, `let Some(l) = self.length.checked_sub(1) else { return None }`, `match .. { None => .. }`)"""
+        for f in (strip(f) for f in facts):
+            if f[0] == "eq" and sorted([f[1], f[2]], key=repr) == sorted([length, ("c", "0")], key=repr):
+                return True
+            if f[0] == "lt" and f[1] == length and const_int(f[2]) == 1 or (f[0] == "le" and f[1] == length and const_int(f[2]) == 0):
+                return True
+            if f[0] in ("is", "isnot"):
+                t = f[1]
+                broke = t[0] == "try" and variant_known([f], t, "1")       # `?` took the Break edge
+                t = t[1] if t[0] == "try" else t
+                if is_call(t, r"^core::num::<impl u(8|16|32|64|128|size)>::checked_sub$") and t[2] == (length, ("c", "1")) and (broke or (f[1] == t and variant_known([f], t, "0"))):
+                    return True
+        return False
+
+    def none_ret(r):
+        """None, written out or as the residual of `?` on an Option in this Option-returning function"""
+        if r is not None and r[0] == "agg" and r[2] == "None":
+            return True
+        return is_call(r, r"FromResidual.*::from_residual$") and len(r[2]) == 1 and r[2][0][0] == "f" and r[2][0][1][0] == "dc" and r[2][0][1][2] == "Break" \
+            and r[2][0][1][1][0] == "try" and is_call(r[2][0][1][1][1], r"^core::num::<impl \w+>::checked_\w+$|^core::option::Option")
     for p in P[NEXT]:
         r = p.ret
         if r is not None and r[0] == "agg" and r[2] == "Some":
             v = uncast(r[3][0])
             ok_next = ok_next and v[0] == "bin" and v[1] == "BitAnd" and any(const_int(x) is not None and 0 <= const_int(x) <= 7 for x in (v[2], v[3]))
-        elif r is not None and r[0] == "agg" and r[2] == "None":
-            ok_next = ok_next and ("eq", field(("arg", 1), "length"), ("c", "0")) in p.facts
+        elif none_ret(r):
+            ok_next = ok_next and length_is_zero(p.facts)
         else:
             ok_next = False
     ctx.instance(R, {"OcTreePath::next": "Some(x & 7) / None only when length == 0", "holds": ok_next})
